@@ -33,6 +33,12 @@ CHECKS = {
         "Trusted: vk.oracles.gf2m after self-test against textbook primitive polynomials, the GF(16) table and known BCH generators.",
         "3 C18",
     ),
+    "C02": (
+        "runtime monitoring: boundary oracle on real decoders - harness-injected error patterns of weight<=t on reference-encoded codewords (exact message equality) and a reference nearest-codeword distance oracle for the complete decoders; cases run as rows of mixed batches and 1-D",
+        "Held on every (code, decoder) pairing of the catalogue: all codewords x all patterns of weight<=t where that fits the budget (marked exhaustive per unit), seeded otherwise; ML clause on all 2^n words for small n. Exploration with exhaustive sub-spaces.",
+        "Trusted: vk.oracles.gf2 codebook enumeration. t taken from the advertised distance; where the advertisement itself is false (RS-style, a listed finding) the attainable t is used.",
+        "3 C02",
+    ),
 }
 
 ALL = [f"C{i:02d}" for i in range(1, 21)]
